@@ -116,13 +116,9 @@ impl<T: ?Sized> RwLock<T> {
                 .compare_exchange(0, 1, Ordering::SeqCst, Ordering::SeqCst)
             {
                 Ok(_) => Ok(()),
-                Err(_) => {
-                    if self.poison.get() {
-                        Err(TryLockError::Poisoned(PoisonError::new(())))
-                    } else {
-                        Err(TryLockError::WouldBlock)
-                    }
-                }
+                // losing the race means someone else holds the lock,
+                // poisoned or not
+                Err(_) => Err(TryLockError::WouldBlock),
             }
         } else {
             Err(TryLockError::WouldBlock)
